@@ -230,31 +230,60 @@ func checkC09(c *Ctx, r *Report) {
 			if !ok || !isField(st.Addr, pkgDomain, "ModelRoutingDecision", "StatusCode") {
 				return
 			}
-			k, _ := constInt(st.Val)
-			rejected, notFound, notFoundNeg := false, false, false
-			for _, cf := range condFacts(in.Block()) {
-				if bo, ok := cf.Cond.(*ssa.BinOp); ok && bo.Op == token.EQL {
-					if s, ok := constString(bo.Y); ok {
-						if s == "rejected" && cf.True {
-							rejected = true
+			// the stored value is a constant under the facts of its block, or a phi whose constant edges carry the
+			// facts of the edge they arrive on (status computed into a local first, then stored)
+			type cand struct {
+				k     int64
+				facts []condFact
+			}
+			var cands []cand
+			var collect func(v ssa.Value, facts []condFact, d int)
+			collect = func(v ssa.Value, facts []condFact, d int) {
+				if d == 0 {
+					return
+				}
+				if k, ok := constInt(v); ok {
+					cands = append(cands, cand{k, facts})
+					return
+				}
+				if phi, ok := v.(*ssa.Phi); ok {
+					for i, e := range phi.Edges {
+						if i < len(phi.Block().Preds) {
+							collect(e, edgeFacts(phi.Block().Preds[i], phi.Block()), d-1)
 						}
-						if s == "model_not_found" {
-							if cf.True {
-								notFound = true
-							} else {
-								notFoundNeg = true
+					}
+					return
+				}
+				cands = append(cands, cand{-1, facts})
+			}
+			collect(st.Val, condFacts(in.Block()), 4)
+			for _, cd := range cands {
+				k := cd.k
+				rejected, notFound, notFoundNeg := false, false, false
+				for _, cf := range cd.facts {
+					if bo, ok := cf.Cond.(*ssa.BinOp); ok && bo.Op == token.EQL {
+						if s, ok := constString(bo.Y); ok {
+							if s == "rejected" && cf.True {
+								rejected = true
+							}
+							if s == "model_not_found" {
+								if cf.True {
+									notFound = true
+								} else {
+									notFoundNeg = true
+								}
 							}
 						}
 					}
 				}
-			}
-			key := fmt.Sprintf("%s:StatusCode=%d", fname(nd), k)
-			switch {
-			case k == 404 && rejected && notFound, k == 503 && rejected && notFoundNeg:
-				r.OK("C09-R4", key, in.Pos(), "status constant matches the rejection class")
-			case k == 200:
-			default:
-				r.Bad("C09-R4", key, in.Pos(), "rejection status mapping changed: 404 must mean rejected ∧ model_not_found, 503 any other rejection")
+				key := fmt.Sprintf("%s:StatusCode=%d", fname(nd), k)
+				switch {
+				case k == 404 && rejected && notFound, k == 503 && rejected && notFoundNeg:
+					r.OK("C09-R4", key, in.Pos(), "status constant matches the rejection class")
+				case k == 200:
+				default:
+					r.Bad("C09-R4", key, in.Pos(), "rejection status mapping changed: 404 must mean rejected ∧ model_not_found, 503 any other rejection")
+				}
 			}
 		})
 	}
